@@ -300,7 +300,7 @@ def gen_plan(run_seed, fault_mode=None):
     cfg = {
         'storage': storage,
         'threaded': threaded,
-        'max_queue_size': wl.choice([1, 1, 2, 2, 3]),
+        'max_queue_size': wl.choice([0, 1, 1, 2, 2, 3]),  # 0 = unbounded queue
         'delete': wl.random() < 0.8,
         'explicit_path': wl.random() < 0.5,
         'enter': wl.random() < 0.7,  # use the CacheFile in a `with`-like manner (__enter__/__exit__)
